@@ -51,7 +51,7 @@ P = {
              cross_profile=True,
              theorems=['C17_profile_independent', 'C17_run_profile_independent', 'C17_no_assertion_fires', 'C17_sizes_fit']),
  'C06': dict(families=[('mixed', 150, 2500, 120), ('iter', 100, 1500, 120), ('entry', 60, 1000, 120), ('clone', 80, 1200, 120), ('core', 60, 1000, 120)], aspects='RSDK', profiles=['debug', 'release'],
-             theorems=['C06_history_conserves_keys', 'C06_all_released_once_maps_are_gone', 'C06_keys_in_static', 'C06_law_covers_every_operation', 'C06_entry_step_conserves', 'C06_entry_chain_conserves', 'C06_raw_entry_chain_conserves', 'C06_moves_drop_nothing', 'C06_insert_drops_duplicate_key_only', 'C06_insert_conserves', 'C06_extend_conserves', 'C06_remove_hands_back', 'C06_lookup_drops_nothing', 'C06_reserve_drops_nothing',
+             theorems=['C06_history_conserves_keys', 'C06_all_released_once_maps_are_gone', 'C06_never_dropped_twice_nor_dropped_and_handed_back', 'C06_keys_in_static', 'C06_law_covers_every_operation', 'C06_entry_step_conserves', 'C06_entry_chain_conserves', 'C06_raw_entry_chain_conserves', 'C06_moves_drop_nothing', 'C06_insert_drops_duplicate_key_only', 'C06_insert_conserves', 'C06_extend_conserves', 'C06_remove_hands_back', 'C06_lookup_drops_nothing', 'C06_reserve_drops_nothing',
                        'C06_shrink_drops_nothing', 'C06_iter_drops_nothing', 'C06_clone_drops_nothing', 'C06_clone_from_drops_destination_once', 'C06_eq_drops_nothing', 'C06_clear_drops_each_once', 'C06_drop_map_drops_each_once',
                        'C06_drain_drops_the_rest_once', 'C06_into_iter_drops_the_rest_once', 'C06_retain_conserves_keys', 'C06_drain_filter_conserves_keys', 'C06_lite_reachable']),
  'C13': dict(families=[('set', 120, 1500, 120), ('zst', 40, 400, 150)], aspects='RSD', profiles=['debug', 'release'],
@@ -445,7 +445,7 @@ def main():
             proof_problems=problems,
             aspects_compared=cfg['aspects'],
         ),
-        assumptions=['lawful Eq/Hash on keys; callbacks do not re-enter the map; Drop does not panic',
+        assumptions=['lawful Eq/Hash on keys; callbacks do not re-enter the map; Drop does not panic (one exception is exercised: a key destructor panicking while a drain_filter iterator is being dropped)',
                      'hashbrown behaves as one of the resolutions of the contract in coq/Raw.v (checked per trace, not proved)'],
         wall_s=round(time.time() - t0, 1),
         violations=len(violations),
